@@ -94,6 +94,7 @@ func (cs *chanState) doRecv(w *waiter) string {
 			s := cs.sendq[0]
 			cs.sendq = cs.sendq[1:]
 			cs.buf = append(cs.buf, s.val)
+			s.ok = true
 			s.release()
 		}
 		return "buf"
@@ -101,6 +102,7 @@ func (cs *chanState) doRecv(w *waiter) string {
 		s := cs.sendq[0]
 		cs.sendq = cs.sendq[1:]
 		w.got, w.ok = s.val, true
+		s.ok = true
 		s.release()
 		return "rendezvous"
 	default:
